@@ -75,3 +75,55 @@ package reclaimable
 // termination precondition of every parent-chain loop in this package.
 //@ declare rank(q common_info.QueueID) int
 //@ define acyclic(queues map[common_info.QueueID]*rs.QueueAttributes) bool = forall k in queues :: rank(k) >= 0 && (queues[k].ParentQueue in queues ==> rank(queues[k].ParentQueue) < rank(k))
+// Ghost ancestor relation of the queue tree: anc(q, a) <=> a is q itself or an ancestor of q. It is
+// DEFINED by ancRec (on an acyclic map the recursion has exactly one solution, the reflexive-transitive
+// closure of "parent"); ancUp/ancIn are consequences by induction on rank that SMT cannot derive and
+// are therefore stated with the definition.
+//@ declare anc(q common_info.QueueID, a common_info.QueueID) bool
+//@ define ancRec(queues map[common_info.QueueID]*rs.QueueAttributes) bool = forall q common_info.QueueID, a common_info.QueueID :: q in queues ==> (anc(q, a) == (a == q || (queues[q].ParentQueue in queues && anc(queues[q].ParentQueue, a))))
+//@ define ancIn(queues map[common_info.QueueID]*rs.QueueAttributes) bool = forall q common_info.QueueID, a common_info.QueueID :: q in queues && anc(q, a) ==> a in queues && rank(a) <= rank(q)
+//@ define ancUp(queues map[common_info.QueueID]*rs.QueueAttributes) bool = forall q common_info.QueueID, a common_info.QueueID :: q in queues && anc(q, a) && queues[a].ParentQueue in queues ==> anc(q, queues[a].ParentQueue)
+//@ define treeOK(queues map[common_info.QueueID]*rs.QueueAttributes) bool = wfQueues(queues) && acyclic(queues) && ancRec(queues) && ancIn(queues) && ancUp(queues)
+
+// C07 "taken at the hierarchy level where it diverges": the path is the parent chain of queueId,
+// root first: last element is queues[queueId], each element is followed by one of its children
+// (element i-1 is the parent of element i), the first element has no parent in the map.
+//@ func (*Reclaimable).getHierarchyPath
+//@   props C07 C10
+//@   requires treeOK(queues)
+//@   loop 1
+//@     invariant found ==> queue != nil && queue.UID in queues && queues[queue.UID] == queue && anc(queueId, queue.UID) && queueId in queues
+//@     invariant len(hierarchyPath) == 0 ==> found == (queueId in queues) && (found ==> queue == queues[queueId])
+//@     invariant len(hierarchyPath) > 0 ==> queueId in queues && hierarchyPath[len(hierarchyPath) - 1] == queues[queueId]
+//@     invariant len(hierarchyPath) > 0 ==> found == (hierarchyPath[0].ParentQueue in queues) && (found ==> queue == queues[hierarchyPath[0].ParentQueue])
+//@     invariant forall i int :: 0 <= i && i < len(hierarchyPath) ==> hierarchyPath[i] != nil && hierarchyPath[i].UID in queues && queues[hierarchyPath[i].UID] == hierarchyPath[i] && anc(queueId, hierarchyPath[i].UID)
+//@     invariant forall i int :: 0 < i && i < len(hierarchyPath) ==> hierarchyPath[i].ParentQueue in queues && hierarchyPath[i - 1] == queues[hierarchyPath[i].ParentQueue]
+//@     invariant forall p **rs.QueueAttributes :: !fresh(p) ==> *p == old(*p)
+//@     decreases ite(found, rank(queue.UID) + 1, 0)
+//@   ensures [empty] !(queueId in queues) ==> len(result) == 0
+//@   ensures [leaf] queueId in queues ==> len(result) >= 1 && result[len(result) - 1] == queues[queueId]
+//@   ensures [root] len(result) > 0 ==> !(result[0].ParentQueue in queues)
+//@   ensures [members] forall i int :: 0 <= i && i < len(result) ==> result[i] != nil && result[i].UID in queues && queues[result[i].UID] == result[i] && anc(queueId, result[i].UID)
+//@   ensures [chain] forall i int :: 0 < i && i < len(result) ==> result[i].ParentQueue in queues && result[i - 1] == queues[result[i].ParentQueue]
+//@ end
+
+// C07 "(taken at the hierarchy level where it diverges from the reclaimer's queue)": the returned pair
+// are the ancestors-or-self of the reclaimer's and the reclaimee's queue at the first level where the
+// two root paths differ, i.e. two distinct queues with the same parent (or two distinct top-level
+// queues); when the paths never differ (one queue is an ancestor-or-self of the other) both results are
+// that ancestor.
+//@ define sameParent(queues map[common_info.QueueID]*rs.QueueAttributes, a *rs.QueueAttributes, b *rs.QueueAttributes) bool = (a.ParentQueue in queues) == (b.ParentQueue in queues) && (a.ParentQueue in queues ==> a.ParentQueue == b.ParentQueue)
+//@ func (*Reclaimable).getLeveledQueues
+//@   props C07
+//@   requires treeOK(queues)
+//@   loop 1
+//@     invariant 0 <= i && i <= minLength
+//@     invariant i == 0 ==> reclaimerQueue == nil && reclaimeeQueue == nil
+//@     invariant i > 0 ==> reclaimerQueue == reclaimers[i - 1] && reclaimeeQueue == reclaimees[i - 1] && reclaimerQueue.UID == reclaimeeQueue.UID
+//@     decreases minLength - i
+//@   ensures [nil] (result0 == nil) == !(reclaimerQueueID in queues && reclaimeeQueueID in queues) && (result1 == nil) == (result0 == nil)
+//@   ensures [ancestors] result0 != nil ==> anc(reclaimerQueueID, result0.UID) && anc(reclaimeeQueueID, result1.UID) && queues[result0.UID] == result0 && queues[result1.UID] == result1
+//@   ensures [divergence] result0 != nil && result0.UID != result1.UID ==> sameParent(queues, result0, result1)
+//@   ensures [nested] result0 != nil && result0.UID == result1.UID ==> result0 == result1 && (result0 == queues[reclaimerQueueID] || result0 == queues[reclaimeeQueueID])
+//@ end
+
